@@ -194,6 +194,31 @@ mod ffi {
 """
 
 
+def lifetimes_opt_bridge():
+    """optional borrowing structs the result borrows from: the borrow analysis has to look through the Option (backends without
+    option support refuse the bridge at lowering, which is fine)"""
+    return """#[diplomat::bridge]
+mod ffi {
+    use diplomat_runtime::DiplomatStrSlice;
+    #[diplomat::opaque]
+    pub struct Op(pub u8);
+    #[diplomat::opaque]
+    pub struct Two<'h, 'k>(pub &'h u8, pub &'k u8);
+    pub struct Single<'x> { pub a: &'x Op }
+    pub struct Pair<'x, 'y> { pub a: &'x Op, pub b: &'y Op, pub s: DiplomatStrSlice<'y> }
+    pub struct Collapsed<'a> { pub pair: Pair<'a, 'a> }
+    impl Op {
+        pub fn opt_single<'a>(x: Option<Single<'a>>, fallback: &'a Op) -> &'a Op { match x { Some(s) => s.a, None => fallback } }
+        pub fn opt_pair<'p, 'q>(&'p self, x: Option<Pair<'p, 'q>>, y: Option<Collapsed<'q>>) -> Box<Two<'p, 'q>> { let _ = (x, y); Box::new(Two(&self.0, &self.0)) }
+        pub fn opt_unused<'a>(&self, x: Option<Single<'a>>) -> u8 { let _ = x; self.0 }
+    }
+    impl<'x> Single<'x> {
+        pub fn or(self, other: Option<Single<'x>>) -> Single<'x> { other.unwrap_or(self) }
+    }
+}
+"""
+
+
 def constructors_bridge():
     """constructors that need a value of the type they construct, directly, through a second type, through a struct field, optionally;
     every type also has a write-out method and an ordinary one (demo_gen renders a call, and its arguments, for such methods)"""
@@ -237,7 +262,7 @@ mod ffi {
 
 def bridges():
     return [("docs", docs_bridge()), ("docs_traits", docs_bridge(True)), ("special", special_bridge()), ("lifetimes", lifetimes_bridge()),
-            ("constructors", constructors_bridge())]
+            ("constructors", constructors_bridge()), ("lifetimes_opt", lifetimes_opt_bridge())]
 
 
 URL_ARGS = [[], ["-u", "*:https://example.org/api"], ["-u", "foo:https://foo.example/docs/", "-u", "bar:https://bar.example"]]
